@@ -800,6 +800,13 @@ func runSeq(sc *scenario, out *lineWriter, timeout time.Duration) bool {
 		default:
 			fail("scenario %s: unknown operation %q", sc.ID, op.T)
 		}
+		if strings.HasPrefix(pmsg, "operation did not return") {
+			// a hung operation: the observation functions would hang on the same locks; report it the way a crash of the
+			// code under test is reported and give the scenario up
+			out.emit(map[string]interface{}{"ev": "Detector", "sc": sc.ID, "i": i + 1, "races": 0, "crashes": 1,
+				"where": fmt.Sprintf("%s(s%d) %s", op.T, op.S, pmsg)})
+			return false
+		}
 		settled, miss, note := true, []int{}, ""
 		if pmsg == "" {
 			if (op.T == "rem" || op.T == "remev") && d.hadOwn(op.S) {
